@@ -491,6 +491,16 @@ func c18RegexFacts(p string) string {
 	if int(n) != len(tok) {
 		return fmt.Sprintf("Len()=%d", n)
 	}
+	// the token inside a larger text (more slashes follow): still the length of the /P/ token
+	for _, tail := range []string{" GET /a/b", "\n/next-token/", " // matches"} {
+		n2, o2 := lib.SafeVal(regex.New("@T", tok+tail).Len)
+		if !o2.OK {
+			return "Len() with text after the token: " + o2.Verdict()
+		}
+		if int(n2) != len(tok) {
+			return fmt.Sprintf("Len()=%d when %q follows the token", n2, tail)
+		}
+	}
 	re := regexp.MustCompile(p)
 	for i := 0; i < 3; i++ {
 		rxi := regex.New("@T", tok, regex.WithGeneratorSeed(int64(i)))
